@@ -274,7 +274,7 @@ class C06(RenderProp):
     id = "C06"
     n_quick = 2500
     n_thorough = 40000
-    required_theorems = ["C06_extract", "C06_void_table", "C06_quote_output", "C06_quote_lex", "C06_quote_no_trailing_brace"]
+    required_theorems = ["C06_extract", "C06_void_table", "C06_quote_output", "C06_quote_lex", "C06_quote_no_trailing_brace", "C06_static_render"]
     assumptions = ["quoteL / lexQ are hand-written models of quoteDelims (pug_parser.go) and of lexText/lexLeftDelim/lexRightDelim (parse/lex.go) restricted to the quoting "
                    "action; validated end to end by the correspondence"]
     rule = ("random tag trees (block-level/inline, void/non-void, depth <= 4 quick / 7 thorough, optional doctype) with literal texts from a "
@@ -339,7 +339,7 @@ class C04(RenderProp):
     n_quick = 3600
     n_thorough = 60000
     required_theorems = ["C04_extract", "C04_matrix", "C04_wrapKind", "C04_escape_table", "C04_escape_safe", "C04_escape_hom", "C04_substitution",
-                         "C04_escape_eq_spec", "C04_print_escaped"]
+                         "C04_escape_eq_spec", "C04_print_escaped", "C04_code_escaped_scalar"]
     rule = ("every string-carrying expression shape (variable, member, nested member, index, key index, concatenation both ways, conditional both "
             "branches, || default on undefined and on empty string, &&, function result, method result, join, template literal, array literal) x 7 positions "
             "(bare, between texts, inside tags, in if / each bodies, after unbuffered code, between brace texts) x hostile strings built from the five significant "
